@@ -121,7 +121,14 @@ fn main() {
     }
     for code in ["en", "fr", "es", "pt", "it", "de", "nl"] {
         let l = lang(code);
-        for text in corpus(&repo, code) {
+        let mut texts = corpus(&repo, code);
+        // shapes the test literals do not have: a detached or glued full stop, a comma and a dash between two small numbers
+        let (a, b) = match code { "en" => ("one", "two"), "fr" => ("un", "deux"), "es" => ("uno", "dos"), "pt" => ("um", "dois"), "it" => ("uno", "due"), "de" => ("eins", "zwei"), _ => ("een", "twee") };
+        for sep in [" . ", ". ", " , ", ", ", " - ", " ; "] {
+            texts.push(format!("{}{}{}", a, sep, b));
+            texts.push(format!("x {}{}{} y", a, sep, b));
+        }
+        for text in texts {
             // ws: every space replaced by another kind (or amount) of Unicode whitespace, one kind at a time
             let kinds: Vec<&str> = if mode == "ws" { vec!["\u{a0}\t", "\t", "\n", "\r\n", "  ", "\u{b}", "\u{c}", "\u{85}", "\u{2009}", "\u{202f}", "\u{3000}", "\u{2028}"] } else { vec![""] };
             for th in [10.0f64, 0.0] {
